@@ -26,7 +26,8 @@ Reusable model file (no Mathlib; raw operator classes).  Transcription of the co
 Warts reproduced on purpose: the root's parent-side lever arm is computed against the *last* link
 (`x_i.take(-1)` wraps) before being dropped; `_two_dof` uses `constraint_limit_stiffness` for the
 plane-alignment torque; the sign convention `exp(+vel_damping·dt)`; the contact counter is
-`float32` (`HasF32`).
+`float32` (`HasF32`); `collisions.resolve` gathers the inverse inertia with `i_inv.take(link_idx)`
+on the flattened array, i.e. uses one *scalar* per link (`flatInv`).
 -/
 set_option linter.unusedSectionVars false
 namespace Brax
@@ -325,6 +326,10 @@ section collide
 variable {α : Type} [Zero α] [One α] [Add α] [Sub α] [Mul α] [Neg α] [Div α]
   [LT α] [DecidableLT α] [LE α] [DecidableLE α] [OfScientific α] [HasSqrt α] [HasF32 α]
 
+/-- `state.i_inv.ravel()` -/
+def flatInv (ms : List (M3 α)) : List α :=
+  ms.flatMap fun m => [m.r0.x, m.r0.y, m.r0.z, m.r1.x, m.r1.y, m.r1.z, m.r2.x, m.r2.y, m.r2.z]
+
 /-- `impulse(c, link_idx, x_i, xd_i, i_inv, i_mass)` of `collisions.resolve`: the impulse on the
 first link and the `apply_n` flag -/
 def impulse (s : Sys α) (st : State α) (c : Contact α) : Force α × Bool :=
@@ -334,8 +339,12 @@ def impulse (s : Sys α) (st : State α) (c : Contact α) : Force α × Bool :=
   let x2 := takeWrap st.x_i c.link2
   let xd1 := takeWrap st.xd_i c.link1
   let xd2 := takeWrap st.xd_i c.link2
-  let iInv1 := maskM in1 (takeWrap st.i_inv c.link1)
-  let iInv2 := maskM in2 (takeWrap st.i_inv c.link2)
+  -- `state.i_inv.take(link_idx)` has no `axis`: it indexes the FLATTENED (n·9) array, so the
+  -- "inverse inertia" of link `l` is the scalar `i_inv.ravel()[l]` (entry `l` of link 0's matrix
+  -- for `l < 9`), as in the code
+  let flat := flatInv st.i_inv
+  let iInv1 := maskS in1 (flat.getD (c.link1 % (flat.length : Int)).toNat 0)
+  let iInv2 := maskS in2 (flat.getD (c.link2 % (flat.length : Int)).toNat 0)
   let iMass1 := maskS in1 (1 / st.mass.getD (c.link1 % (st.mass.length : Int)).toNat 0)
   let iMass2 := maskS in2 (1 / st.mass.getD (c.link2 % (st.mass.length : Int)).toNat 0)
   let relPos1 := c.pos - x1.pos
@@ -345,8 +354,8 @@ def impulse (s : Sys α) (st : State α) (c : Contact α) : Force α × Bool :=
   let contactVel := relVel1 - relVel2
   let nn := -c.normal
   let normalVel := V3.dot nn contactVel
-  let t1 := M3.mulVec iInv1 (V3.cross relPos1 nn)
-  let t2 := M3.mulVec iInv2 (V3.cross relPos2 nn)
+  let t1 := V3.smul iInv1 (V3.cross relPos1 nn)
+  let t2 := V3.smul iInv2 (V3.cross relPos2 nn)
   let ang := V3.dot nn (V3.cross t1 relPos1 + V3.cross t2 relPos2)
   let baumgarteVel := s.baumgarteErp / s.dt * c.dist
   let imp := (-1 * (1 + c.elasticity) * normalVel - baumgarteVel) / (iMass1 + iMass2 + ang)
@@ -356,8 +365,8 @@ def impulse (s : Sys α) (st : State α) (c : Contact α) : Force α × Bool :=
   let nd := safeNorm3 velD
   let dd : α := 1e-6 + nd
   let dirD : V3 α := ⟨velD.x / dd, velD.y / dd, velD.z / dd⟩
-  let u1 := M3.mulVec iInv1 (V3.cross relPos1 dirD)
-  let u2 := M3.mulVec iInv2 (V3.cross relPos2 dirD)
+  let u1 := V3.smul iInv1 (V3.cross relPos1 dirD)
+  let u2 := V3.smul iInv2 (V3.cross relPos2 dirD)
   let angD := V3.dot dirD (V3.cross u1 relPos1 + V3.cross u2 relPos2)
   let impD := nd / (iMass1 + iMass2 + angD)
   -- drag magnitude cannot exceed max friction
